@@ -23,11 +23,42 @@ variable (score : κ → ν → S)
 def IsOrdering (key : κ) (nodes out : List ν) : Prop :=
   out.Perm nodes ∧ SortedDesc (score key) out
 
-/-- **C22 (1)** the reference ordering is a permutation of the nodes sorted by descending score
-(every key, every node list). -/
+/-- C22 (1, reference sort only) the model's own insertion sort `ordered` is a permutation of the
+nodes sorted by descending score.  This is true by construction of `ordered` and says nothing about
+Go's `sort.Sort`; the obligation on the implementation is `any_ordering_is_ordered` below, whose
+hypothesis `IsOrdering` (sorted permutation) is what the driver checks on every real result, and
+`sort_contract_is_sortedDesc`, which derives that hypothesis from sort.Sort's contract. -/
 theorem ordered_perm_sorted (nodes : List ν) (key : κ) :
     IsOrdering score key nodes (ordered (score key) nodes) :=
   ⟨ordered_perm _ _, ordered_sorted _ _⟩
+
+/-- `Less(i,j) := score i < score j` (RendezvousNodesByScore.Less) is a strict weak order whenever the
+scores live in a linear order (no NaN): irreflexive, transitive, and incomparability (= equal score)
+is transitive.  This is the precondition under which `sort.Sort` guarantees a sorted result. -/
+theorem less_is_strict_weak_order (sc : ν → S) :
+    let less := fun a b => ¬ sc b ≤ sc a
+    (∀ a, ¬ less a a) ∧ (∀ a b c, less a b → less b c → less a c) ∧
+    (∀ a b c, (¬ less a b ∧ ¬ less b a) → (¬ less b c ∧ ¬ less c b) → (¬ less a c ∧ ¬ less c a)) := by
+  refine ⟨fun a h => h (le_rfl' _), ?_, ?_⟩
+  · intro a b c h1 h2 h3
+    have hab : sc a ≤ sc b := (le_tot (sc a) (sc b)).resolve_right h1
+    exact h2 (le_tr h3 hab)
+  · intro a b c ⟨h1, h2⟩ ⟨h3, h4⟩
+    have ab : sc b ≤ sc a := Classical.not_not.mp h1
+    have ba : sc a ≤ sc b := Classical.not_not.mp h2
+    have bc : sc c ≤ sc b := Classical.not_not.mp h3
+    have cb : sc b ≤ sc c := Classical.not_not.mp h4
+    exact ⟨fun h => h (le_tr bc ab), fun h => h (le_tr ba cb)⟩
+
+/-- The contract of `sort.Sort(sort.Reverse(byScore))` — no later element is `Less`-greater than an
+earlier one under the reversed predicate, i.e. never `score out[i] < score out[j]` for `i < j` —
+is exactly `SortedDesc`.  Together with "sort.Sort permutes its input" this is `IsOrdering`. -/
+theorem sort_contract_is_sortedDesc (sc : ν → S) (out : List ν) :
+    out.Pairwise (fun a b => ¬ (¬ sc b ≤ sc a)) ↔ SortedDesc sc out := by
+  unfold SortedDesc
+  constructor <;> intro h <;> refine h.imp ?_
+  · intro a b hab; exact Classical.not_not.mp hab
+  · intro a b hab h'; exact h' hab
 
 /-- **C22 (2)** algorithm independence: whatever produced `out`, if it is a descending-sorted
 permutation of the nodes and the scores are pairwise distinct, it is THE ordering. -/
@@ -132,6 +163,27 @@ theorem top_k_stable (nodes : List ν) (key : κ) (n : ν) (k : Nat) (inj : InjO
       have hx : x ≠ n := fun h => hn (by simp [h])
       have ht : n ∉ t.take k := fun h => hn (by simp [List.take_succ_cons, h])
       rw [List.erase_cons_tail (by simpa using hx), List.take_succ_cons, List.take_succ_cons, ih k ht]
+
+/-- The full statement of the property without the distinct-scores hypothesis: any two acceptable
+outputs for the same membership agree.  REFUTED (`not_order_independent`): the real code reaches
+score ties — `lib/store.initCASVolumes` passes `Volume.Weight` unchecked, and a weight of 0 (the
+zero value of an omitted `weight:`) makes every score `-0/log(s) = 0`; known finding
+`order-dependent-nonpositive-weight`, replayed on every run against initCASVolumes. -/
+def order_independent_target : Prop :=
+  ∀ (sc : Nat → Int) (nodes nodes' out out' : List Nat), nodes.Perm nodes' →
+    IsOrdering (fun (_ : Unit) => sc) () nodes out → IsOrdering (fun (_ : Unit) => sc) () nodes' out' → out = out'
+
+theorem not_order_independent : ¬ order_independent_target := by
+  intro h
+  have := h (fun _ => 0) [1, 2] [1, 2] [1, 2] [2, 1] (List.Perm.refl _)
+    ⟨List.Perm.refl _, by decide⟩ ⟨List.Perm.swap 1 2 [], by decide⟩
+  exact absurd this (by decide)
+
+/-- the strongest true form: order independence for every membership whose scores are pairwise distinct -/
+theorem order_independent_partial (sc : Nat → Int) (nodes nodes' out out' : List Nat) (hp : nodes.Perm nodes')
+    (ho : IsOrdering (fun (_ : Unit) => sc) () nodes out) (ho' : IsOrdering (fun (_ : Unit) => sc) () nodes' out')
+    (inj : InjOn sc nodes) : out = out' :=
+  orderings_agree (fun (_ : Unit) => sc) nodes nodes' out out' () hp ho ho' inj
 
 /-- The hypothesis is necessary: with a score tie two different orderings are both acceptable, so
 the result may depend on insertion order / the sort algorithm. -/
